@@ -108,14 +108,18 @@ def intFromString (str : List Char) (base : Nat) : Option Obj :=
 
 /-! ### specification: Python's `int(text, base)` -/
 
+/-- a base prefix `0x`/`0o`/`0b` (either case) at the start of the unsigned text -/
+def prefOf (s : List Char) : Option (Nat × List Char) :=
+  match s with
+  | '0' :: c :: r => (sigilOf c).map (fun pb => (pb, r))
+  | _ => none
+
 /-- Python: optional whitespace, optional single sign, optional base prefix (when the
 base is 0 or matches), one or more digits of the base; base 0 ⇒ decimal literals must
 not have leading zeros unless the value is zero. -/
 def specIntFromString (str : List Char) (base : Nat) : Option Int :=
   let (neg, s) := stripSign (trimSpace str)
-  let pref : Option (Nat × List Char) := match s with
-    | '0' :: c :: r => (sigilOf c).map (fun pb => (pb, r))
-    | _ => none
+  let pref : Option (Nat × List Char) := prefOf s
   let (b, digits) : Nat × List Char :=
     match pref with
     | some (pb, r) => if base == 0 || base == pb then (pb, r) else (base, s)
